@@ -3,7 +3,12 @@ SimplifySymbolNames, compared with filter + mutations of the implementation on e
 import common
 from common import w_shape, w_shapes, w_str, r_str
 
-MALFORMED = ['(assert (and))', '(assert (and (and)))', '(assert (and (and a) (or b) (and c d)))', '(assert (let))', '(assert (let ((x 1))))',
+MALFORMED = ['(let x y)', '(let xy y)', '(let (x) y)', '(let (xy) y)', '(let (()) y)', '(let ((x)) y)', '(let ((x 1) (y)) x)', '(let ((x 1 2)) (f x) extra)',
+             '(let ((x 1)) x)', '(let (((a b) 1)) (f (a b)))', '(let ((x 1)) (let ((y x)) x))', '(let ((x (f y))) (forall ((y Int)) x))',
+             '(let ((x (f y))) (match x (((c y) x))))', '(let () y)', '(let ((x y) (y 1)) (+ x y))', '(let ((x 2)) (let ((x 5)) (+ x 1)))',
+             '(let ((x (+ y 1))) (let ((y 5)) (+ x y)))', '(let ((x 1) (z x)) (+ x z))', '(let ((x (g x))) (f x))', '(let ((x 1)) (lambda ((x Int)) x))',
+             '(let ((x y)) (match x ((y y) ((c z) x))))', '(let ((x 1)) (exists (y) (f x y)))', '(let ((x 1)) (exists y (f x y)))', '(let ((x y)) (let y x))',
+             '(assert (and))', '(assert (and (and)))', '(assert (and (and a) (or b) (and c d)))', '(assert (let))', '(assert (let ((x 1))))',
              '(assert (let ((x 1)) x y))', '(assert ())', '(assert (()))', '(assert ((and a) (and b)))', '(assert (= (= a b) (= c)))',
              '(assert (+ (+) (+ 1) (+ 1 2 3)))', '(a b c d e f g h)', '(a b c d e f g h i j k l m n o p q)', '((a) (b) (c) (d) (e) (f) (g) (h) (i))',
              '(assert (and (and a b) c (and d (and e f))))', '(assert (or (b a) a (c b a) ()))', '(assert (concat (concat x y) (concat z)))',
@@ -32,7 +37,7 @@ def run(ctx, impl, model, rng, texts, max_children=9):
     smtlib, nodes = impl.smtlib, impl.nodes
     M = dict(rbc=mutators_core.ReplaceByChild(), merge=mutators_core.MergeWithChildren(), sort=mutators_core.SortChildren(),
              binred=mutators_core.BinaryReduction(), letel=mutators_smtlib.LetElimination(), erase=mutators_core.EraseNode(),
-             ssn=mutators_smtlib.SimplifySymbolNames())
+             ssn=mutators_smtlib.SimplifySymbolNames(), letsub=mutators_smtlib.LetSubstitution())
     calls, meta = [], []
 
     def props(m, node):
@@ -45,7 +50,7 @@ def run(ctx, impl, model, rng, texts, max_children=9):
             with common.time_limit(5):
                 got = [1, w_shapes([impl.to_shape(x) for x in thunk()])]
         except Exception as e:  # noqa
-            got = [0, type(e).__name__]
+            got = [0]        # the model says None = raises (which exception is not modelled)
         calls.append((code, arg))
         meta.append((what, str(node)[:200], got))
 
@@ -73,6 +78,7 @@ def run(ctx, impl, model, rng, texts, max_children=9):
             add(93, [sh], 'SortChildren', node, lambda node=node: props(M['sort'], node))
             add(94, [sh], 'BinaryReduction', node, lambda node=node: props(M['binred'], node))
             add(95, [sh], 'LetElimination', node, lambda node=node: props(M['letel'], node))
+            add(97, [sh], 'LetSubstitution', node, lambda node=node: props(M['letsub'], node))
         # candidate names of SimplifySymbolNames
         for cmd in exprs:
             try:
